@@ -400,18 +400,48 @@ var freshLocals = map[string][]string{
 	"2":  {"qx", "wz", "zj", "uq"},
 	"8":  {"qwertzui", "zzlocalx", "jjvalueq"},
 	"30": {"qqqq_very_long_local_name_zz01", "wwww_another_long_identifier_9"},
+	// same lexical category, unusual spelling: leading or trailing underscore,
+	// digits, an inner capital
+	"shape": {"_q", "_zz9", "_num_q", "q_", "qZ", "q9", "__q"},
 }
 var freshMethods = map[string][]string{
 	"1":  {"k", "g", "y"},
 	"2":  {"kx", "gy", "yk"},
 	"8":  {"kkmethod", "ggroutin", "yyhelper"},
 	"30": {"kkkk_very_long_method_name_zz01", "gggg_another_long_method_nam_9"},
+	"shape": {"_k", "k9", "k_x", "kX", "_kk_"},
 }
 var freshClasses = map[string][]string{
 	"1":  {"Q", "X", "Z"},
 	"2":  {"Qx", "Xz", "Zq"},
 	"8":  {"Qwertzui", "Xyclassq", "Zzwidget"},
 	"30": {"QqqqVeryLongClassNameForTest01", "XxxxAnotherLongClassNameTest09"},
+	// acronym-prefixed CamelCase, digits and underscores after the capital
+	"shape": {"HTTPClientq", "IOq", "DBc", "XMLHolderq", "Q9x", "Q_x", "QQq"},
+}
+
+// bindingForms are small programs in which AA (and BB) are locals bound by
+// something other than a plain assignment; the rename family substitutes fresh
+// names for them.
+var bindingForms = []struct{ Name, Src string }{
+	{"array-pattern", "pair = [1, 2.5]\ncase pair\nin [AA, BB]\n  dbtp AA\n  AA.upcase\n  dbtp BB\nend\n"},
+	{"array-pattern-rest", "list = [1, 2, 3]\ncase list\nin [AA, *BB]\n  dbtp AA\n  AA.upcase\n  dbtp BB\nend\n"},
+	{"class-pattern", "val = 5\ncase val\nin Integer => AA\n  dbtp AA\n  AA.upcase\nend\n"},
+	{"hash-pattern", "cfg = {name: \"n\", age: 3}\ncase cfg\nin {name: String => AA, age: Integer => BB}\n  dbtp AA\n  dbtp BB\n  BB.upcase\nend\n"},
+	{"block-params", "[1, 2].each_with_index do |AA, BB|\n  dbtp AA\n  dbtp BB\n  AA.upcase\nend\n"},
+	{"brace-block-param", "[\"a\"].each { |AA| dbtp AA\n  AA.abs }\n"},
+	{"multiple-assignment", "AA, BB = 1, \"s\"\ndbtp AA\ndbtp BB\nAA.upcase\n"},
+	{"or-assign", "AA = nil\nAA ||= 1\ndbtp AA\nBB = 2\nBB += 1\ndbtp BB\nBB.upcase\n"},
+	{"for-loop", "for AA in [1, 2]\n  dbtp AA\n  AA.upcase\nend\n"},
+	{"rescue-binding", "begin\n  BB = 1\nrescue => AA\n  dbtp AA\nend\ndbtp BB\nBB.upcase\n"},
+	{"parameters", "def take(AA, BB = 2, *rest)\n  dbtp AA\n  dbtp BB\n  AA.upcase\nend\ntake(1)\ntake(3, 4.5)\n"},
+	{"keyword-parameters", "def opts(AA:, BB: 2)\n  dbtp AA\n  dbtp BB\n  AA.upcase\nend\nopts(AA: 1)\nopts(AA: 3, BB: 4.5)\n"},
+	{"block-local-shadow", "AA = \"outer\"\n[1].each do |AA|\n  dbtp AA\nend\ndbtp AA\nAA.abs\n"},
+	{"string-interpolation", "AA = 1\nBB = \"v#{AA}\"\ndbtp BB\nAA.upcase\n"},
+	{"conditional-assignment", "flag = true\nAA = flag ? 1 : nil\nif AA.nil?\n  dbtp AA\nelse\n  dbtp AA\nend\nBB = AA\ndbtp BB\n"},
+	{"user-class", "class CC\n  def initialize(AA)\n    @v = AA\n  end\n  def get\n    @v\n  end\n  def self.make\n    CC.new(1)\n  end\nend\nBB = CC.new(2)\ndbtp BB\ndbtp BB.get\ndbtp CC.make\nBB.nope\nCC.new\n"},
+	{"user-class-namespaced", "module Outer\n  class CC\n    def get\n      1\n    end\n  end\nend\nBB = Outer::CC.new\ndbtp BB\ndbtp BB.get\nBB.nope\n"},
+	{"user-class-inherit", "class Base9\n  def base_m\n    1\n  end\nend\nclass CC < Base9\nend\nBB = CC.new\ndbtp BB.base_m\nBB.nope\nCC.zork\n"},
 }
 
 // genAccessorProgram builds a class with getter/setter/predicate methods,
@@ -510,7 +540,7 @@ func init() {
 			return judgeRename(c, s.BlackBox(), &rc)
 		},
 		Run: func(c *CheckCtx) {
-			c.rule = "pairs (program, renaming): generated programs are rendered twice from one AST with different names for a chosen subset of its locals, user methods and user classes (fresh names of 1, 2, 8 and 30 characters; class names CamelCase or one capital letter; never a configured class/method name or keyword); corpus programs get one local renamed when every occurrence is an unambiguous whole-word token. Oracle: out(renamed) == out(original) with the same substitution applied to the text (plain and -i). distinct_nontrivial = distinct pairs whose original run printed located records"
+			c.rule = "pairs (program, renaming): generated programs are rendered twice from one AST with different names for a chosen subset of its locals, user methods and user classes (fresh names of 1, 2, 8 and 30 characters and of unusual shape: leading/trailing underscore, digits, inner capital, acronym-prefixed class names; class names CamelCase or one capital letter; never a configured class/method name or keyword); corpus programs get one local renamed when every occurrence is an unambiguous whole-word token; 18 binding-form templates (array/class/hash patterns, block parameters, multiple and or-assignment, for, rescue, positional and keyword parameters, shadowing, interpolation, classes referenced by new/class method/namespace/superclass) get their locals and class renamed. Oracle: out(renamed) == out(original) with the same substitution applied to the text (plain and -i). distinct_nontrivial = distinct pairs whose original run printed located records"
 			c.assumptions = []string{"pairs in which a run crashes or hangs are skipped (C01/C02)", "names in the original rendering carry a reserved prefix so that the textual substitution on the output is unambiguous"}
 			r := c.RNG.Sub(13)
 			modes := [][]string{{}, {"-i"}}
@@ -568,7 +598,7 @@ func init() {
 					default:
 						continue
 					}
-					lc := Pick(r, []string{"1", "2", "8", "30", "adjacent"})
+					lc := Pick(r, []string{"1", "2", "8", "30", "adjacent", "shape"})
 					var fresh string
 					if lc == "same-as-ivar" {
 						// the name of an identifier of another lexical category (a method
@@ -652,13 +682,37 @@ func init() {
 				if len(name) < 2 || tokenIsAmbiguous(it.Source, name) {
 					continue
 				}
-				lc := Pick(r, []string{"1", "2", "8", "30"})
+				lc := Pick(r, []string{"1", "2", "8", "30", "shape"})
 				fresh := Pick(r, freshLocals[lc])
 				if regexp.MustCompile(`\b` + fresh + `\b`).MatchString(it.Source) {
 					continue
 				}
 				m := map[string]string{name: fresh}
 				jobs = append(jobs, &renameCase{SourceA: it.Source, SourceB: substWords(it.Source, m), Map: m, Mode: Pick(r, modes), Origin: "corpus", Kinds: "local/" + lc})
+			}
+			// binding forms: locals bound by patterns, block parameters, multiple
+			// assignment, rescue, for, parameters; classes referenced in every way
+			for k := 0; k < c.N(4, 40); k++ {
+				for _, bf := range bindingForms {
+					lens := []string{"1", "2", "8", "30", "shape", "shape"}
+					la, lb, lcl := Pick(r, lens), Pick(r, lens), Pick(r, lens)
+					fa, fb := Pick(r, freshLocals[la]), Pick(r, freshLocals[lb])
+					if fa == fb {
+						continue
+					}
+					fc := Pick(r, freshClasses[lcl])
+					inst := func(a, b, cn string) string {
+						return strings.NewReplacer("AA", a, "BB", b, "CC", cn).Replace(bf.Src)
+					}
+					m := map[string]string{"aa": fa}
+					if strings.Contains(bf.Src, "BB") {
+						m["bb"] = fb
+					}
+					if strings.Contains(bf.Src, "CC") {
+						m["Cc"] = fc
+					}
+					jobs = append(jobs, &renameCase{SourceA: inst("aa", "bb", "Cc"), SourceB: inst(fa, fb, fc), Map: m, Mode: Pick(r, modes), Origin: "binding-form:" + bf.Name, Kinds: "local/" + la + "+local/" + lb + "+class/" + lcl})
+				}
 			}
 			c.Extra("pairs", len(jobs))
 			c.Eng.Map(len(jobs), func(s *Slot, i int) {
